@@ -42,8 +42,12 @@ CONSTANTS Mods,        \* module names
           TickVals,    \* values offered to m_ctx_set_tick (0 = off, else a period id)
           Targets,     \* modules on which subscribe / batch / stash / become / state setters are offered in this configuration
           AutoVals,    \* auto-free flag values offered to the send calls
+          SubOneshot,  \* one-shot flag values offered to subscribe
           Senders,     \* modules that issue tell / publish / broadcast / pill in this configuration
           QuitCodes,   \* codes passed to m_ctx_quit
+          ForeignOps,  \* module calls attempted from a thread that does not own the module's context (C14)
+          MaxRefs,     \* references the program may hold on one module object
+          MaxHeld,     \* events the program may retain (m_mem_ref) beyond their invocation
           Setup        \* "" = start from nothing; otherwise the name of a canned set-up the driver performs first (see InitOf)
 
 VARIABLE S
@@ -52,6 +56,7 @@ vars == <<S>>
 NEG == -1
 EEXIST == -17
 EAGAIN == -11
+EPERMC == -13          \* a permission error (EPERM or EACCES)
 NoMod == ""
 SysTopics == {"CTX_STARTED", "CTX_STOPPED", "MOD_STARTED", "MOD_STOPPED"}
 \* subscription pattern p matches topic t (literal equality, or the one regular expression "t." matching every user topic)
@@ -72,8 +77,10 @@ RegSeq(s) == SelectSeq(Order, LAMBDA m : m \in Registered(s))
 \* bq/blen: events held back by batching and the configured batch size; stash; hs: handlers installed with become (top first)
 \* src: registered sources, a set of [k, key, os, ac] with at most one element per (k, key)
 \* tb: token bucket [rate (0 = no limit), burst, tok]; bt: a batch timeout is configured (internal timer)
-Mod0 == [st |-> "none", reg |-> FALSE, old |-> FALSE, fl |-> {}, src |-> {}, tb |-> [rate |-> 0, burst |-> 0, tok |-> 0, tmr |-> FALSE], bt |-> FALSE, pipe |-> <<>>, subs |-> {}, bq |-> <<>>, blen |-> 0, stash |-> <<>>, hs |-> <<>>]
-NewMod(m, i) == [Mod0 EXCEPT !.st = "idle", !.reg = TRUE, !.fl = Flags[m][i]]
+\* h: references the program holds on the module object (1 from registration, +1 per m_mem_ref); the object exists while it is
+\* registered or referenced
+Mod0 == [st |-> "none", reg |-> FALSE, old |-> FALSE, h |-> 0, fl |-> {}, src |-> {}, tb |-> [rate |-> 0, burst |-> 0, tok |-> 0, tmr |-> FALSE], bt |-> FALSE, pipe |-> <<>>, subs |-> {}, bq |-> <<>>, blen |-> 0, stash |-> <<>>, hs |-> <<>>]
+NewMod(m, i) == [Mod0 EXCEPT !.st = "idle", !.reg = TRUE, !.h = 1, !.fl = Flags[m][i]]
 Ctx0 == [st |-> "none", quit |-> FALSE, qcode |-> 0, fin |-> FALSE, tick |-> 0]
 Init0 == [ctx |-> Ctx0,
           run |-> 0,
@@ -83,13 +90,15 @@ Init0 == [ctx |-> Ctx0,
           ret |-> 0,
           pay |-> [p \in 1..MaxPay |-> [st |-> "unused", copies |-> 0, auto |-> FALSE]],
           rdy |-> {},                                  \* user descriptors (fd keys) that are readable
+          hup |-> {},                                  \* ... whose peer hung up with data pending (readable for ever)
           due |-> {},                                  \* <<module, key>>: timers that expired and were not consumed yet
           ufd |-> [f \in Keys |-> "open"],             \* user descriptors: "open" | "closed" (closed by the library: auto-close)
+          held |-> <<>>,                               \* events retained by the program (each keeps its message copy / source alive)
           idue |-> {},                                 \* internal timers that expired: <<m, "tb">>, <<m, "bt">>, <<"", "tick">>
           errno |-> 0]
 \* canned set-ups (the driver executes the same public calls before every program and checks it arrived here):
 \*  "loop2" / "loop3": context registered, all modules registered, first dispatch done (loop started, modules RUNNING)
-Running0(m) == [Mod0 EXCEPT !.st = "running", !.reg = TRUE, !.fl = Flags[m][1]]
+Running0(m) == [Mod0 EXCEPT !.st = "running", !.reg = TRUE, !.h = 1, !.fl = Flags[m][1]]
 InitOf(x) == IF x = "" THEN Init0
              ELSE [Init0 EXCEPT !.ctx = [Ctx0 EXCEPT !.st = "looping"],
                                 !.run = Cardinality(Mods),
@@ -99,12 +108,12 @@ Init == S = InitOf(Setup)
 (* ------------------------------ message copies and payloads ------------------------------ *)
 \* a message copy in a mailbox / handed to a handler
 \* pr: priority of the subscription that matched at send time ("N" for direct tell / broadcast); ud: that subscription's pattern ("" = none)
-Msg(p, from, topic, sys) == [p |-> p, from |-> from, topic |-> topic, sys |-> sys, pr |-> "N", ud |-> ""]
+Msg(p, from, topic, sys) == [p |-> p, from |-> from, topic |-> topic, sys |-> sys, pr |-> "N", ud |-> "", os |-> FALSE]
 
 HasSrc(s, m, k, key) == \E x \in s.mod[m].src : x.k = k /\ x.key = key
 SrcOf(s, m, k, key) == CHOOSE x \in s.mod[m].src : x.k = k /\ x.key = key
 \* the event of a descriptor / timer source: no payload, the topic field carries "F<key>" / "T<key>", userdata = the key
-SrcEvt(k, key) == [p |-> 0, from |-> IF k = "fd" THEN "fd" ELSE "tmr", topic |-> "", sys |-> FALSE, pr |-> "N", ud |-> key]
+SrcEvt(k, key) == [p |-> 0, from |-> IF k = "fd" THEN "fd" ELSE "tmr", topic |-> "", sys |-> FALSE, pr |-> "N", ud |-> key, os |-> FALSE]
 
 \* one copy of payload p disappears (delivered-and-released, discarded, or never written)
 Release1(pay, p) ==
@@ -125,7 +134,7 @@ Deliver(s, rs, msg) ==      \* rs: sequence of recipients; a message with a topi
     IF rs = <<>> THEN s
     ELSE LET r == Head(rs)
              m1 == IF msg.topic \in {"", "PILL"} THEN msg
-                   ELSE LET q == SubFor(s, r, msg.topic) IN [msg EXCEPT !.pr = q.pr, !.ud = q.pat]
+                   ELSE LET q == SubFor(s, r, msg.topic) IN [msg EXCEPT !.pr = q.pr, !.ud = q.pat, !.os = q.os]
          IN
          IF Len(s.mod[r].pipe) < Cap
            THEN Deliver([s EXCEPT !.mod[r].pipe = Append(s.mod[r].pipe, m1)], Tail(rs), msg)
@@ -171,11 +180,11 @@ ReleaseCtx(s) == [s EXCEPT !.ctx.st = "none", !.mod = [x \in Mods |-> [s.mod[x] 
 \* descriptors registered with auto-close are closed when their source goes away
 \* ("closing": the source is gone but an event / poll-batch entry still references it; the descriptor is closed when that goes)
 CloseAc(ufd, srcs) == [f \in Keys |-> IF \E x \in srcs : x.k = "fd" /\ x.key = f /\ x.ac THEN "closing" ELSE ufd[f]]
-Holds(s, f) == \E i \in 1..Len(s.stack) :
+Holds(s, f) == (\E j \in 1..Len(s.held) : s.held[j].from = "fd" /\ s.held[j].ud = f) \/ \E i \in 1..Len(s.stack) :
                   \/ (s.stack[i].k = "evt2" /\ \E j \in 1..Len(s.stack[i].ev) : s.stack[i].ev[j].from = "fd" /\ s.stack[i].ev[j].ud = f)
                   \/ (s.stack[i].k = "batch" /\ \E j \in 1..Len(s.stack[i].b) : s.stack[i].b[j][2] = "fd" /\ s.stack[i].b[j][3] = f)
 Settle(s) == LET u == [f \in Keys |-> IF s.ufd[f] = "closing" /\ ~Holds(s, f) THEN "closed" ELSE s.ufd[f]]
-             IN [s EXCEPT !.ufd = u, !.rdy = {f \in s.rdy : u[f] # "closed"}]
+             IN [s EXCEPT !.ufd = u, !.rdy = {f \in s.rdy : u[f] # "closed"}, !.hup = {f \in s.hup : u[f] # "closed"}]
 DropDue(due, m) == {d \in due : d[1] # m}
 ResetMod(s, m) == [s EXCEPT !.pay = ReleaseAll(ReleaseAll(s.pay, s.mod[m].bq), s.mod[m].stash),
                              !.ufd = CloseAc(s.ufd, s.mod[m].src),
@@ -229,7 +238,10 @@ Step(s) ==
             \* restarted by its own stop callback: stopped again until it stays stopped, then ZOMBIE
             IF r.mod[m].st \in {"running", "paused"} THEN Push(Push(r, f), Fr("stop", m, TRUE, 0))
             ELSE
-            LET s1 == [r EXCEPT !.mod[m] = IF f.a THEN Mod0 ELSE [Mod0 EXCEPT !.st = "zombie", !.old = (r.mod[m].old \/ r.ctx.st = "none")]]   \* from_user: the user's reference is consumed
+            \* from_user: one reference of the program is consumed; the object stays (as a ZOMBIE) while the program holds another
+            LET hn == IF f.a THEN r.mod[m].h - 1 ELSE r.mod[m].h
+                s1 == [r EXCEPT !.mod[m] = IF hn = 0 THEN Mod0
+                                           ELSE [Mod0 EXCEPT !.st = "zombie", !.h = hn, !.old = (r.mod[m].old \/ r.ctx.st = "none")]]
             IN IF f.a /\ s1.ctx.st # "looping" /\ Registered(s1) = {} /\ ~CtxPersist
                  THEN IF s1.ctx.st = "none" THEN Ret(s1, NEG)                              \* (context already released by a nested call)
                       ELSE Ret(ReleaseCtx(s1), 0)                                          \* last module gone: context released at once
@@ -276,7 +288,9 @@ Step(s) ==
                                 s1 == [rest EXCEPT !.mod[x].pipe = Tail(r.mod[x].pipe)]
                             IN IF msg.topic = "PILL"
                                  THEN Push([s1 EXCEPT !.pay = Release1(s1.pay, msg.p)], Fr("stop", x, TRUE, 0))
-                                 ELSE PushEvt(s1, x, msg)
+                                 \* a message that came through a one-shot subscription removes that subscription (by its own
+                                 \* pattern, which for a regular expression differs from the message's topic)
+                                 ELSE PushEvt(IF msg.os THEN [s1 EXCEPT !.mod[x].subs = {q \in @ : q.pat # msg.ud}] ELSE s1, x, msg)
                     ELSE IF ~HasSrc(r, x, e[2], e[3]) THEN Push(r, [f EXCEPT !.b = Tail(f.b)])
                     ELSE LET src == SrcOf(r, x, e[2], e[3])
                              \* a one-shot source fires once and is then no longer registered (an auto-close descriptor is closed
@@ -335,7 +349,7 @@ AtTop == S.stack = <<>>
 Can(op) == IF AtTop THEN op \in Ops ELSE (InCb /\ op \in CbOps /\ CbDepth(S.stack) <= MaxNest)
 \* m_ctx(): no context, or the callback being executed belongs to a module denied access to its context
 NoCtx == S.ctx.st = "none" \/ (S.cur # NoMod /\ "DENYCTX" \in S.mod[S.cur].fl)
-Handle(m) == S.mod[m].st # "none"           \* the program holds a reference to (a possibly zombie) module m
+Handle(m) == S.mod[m].h > 0                 \* the program holds a reference to (a possibly zombie) module m
 \* M_MOD_ASSERT: zombie, or not the caller's context (none / denied)
 ModRefused(m) == S.mod[m].st = "zombie" \/ NoCtx
 Do(s) == S' = Run(s)
@@ -384,6 +398,7 @@ Dispatch(b) == /\ Can("Dispatch") /\ AtTop
 (* ------------------------------ module calls ------------------------------ *)
 \* (modelling bound) a name is not registered again while a call concerning its previous incarnation is still in progress
 NoFrames(m) == \A i \in 1..Len(S.stack) : S.stack[i].m # m
+
 ModRegister(m, i) ==
     /\ Can("ModRegister") /\ NoFrames(m) /\ i \in 1..Len(Flags[m])
     /\ IF NoCtx THEN Refuse(NEG)
@@ -412,9 +427,12 @@ ModPause(m)  == /\ Can("ModPause") /\ m \in Targets /\ Handle(m)
 ModStop(m)   == /\ Can("ModStop") /\ m \in Targets /\ Handle(m)
                 /\ IF StateRefused(m, {"running", "paused"}) THEN Refuse(NEG) ELSE Rated(m, Push(S, Fr("stop", m, TRUE, 0)))
 
-\* the program drops its reference to a zombie module
-DropRef(m) == /\ Can("DropRef") /\ S.mod[m].st = "zombie"
-              /\ S' = [S EXCEPT !.mod[m] = Mod0, !.ret = 0]
+\* the program takes / drops a reference on a module object (m_mem_ref / m_mem_unref); the last reference of a module that is
+\* still registered is not dropped (the program would lose its handle)
+RefMod(m) == /\ Can("RefMod") /\ Handle(m) /\ S.mod[m].h < MaxRefs
+             /\ S' = [S EXCEPT !.mod[m].h = @ + 1, !.ret = 0]
+DropRef(m) == /\ Can("DropRef") /\ Handle(m) /\ NoFrames(m) /\ (S.mod[m].st = "zombie" \/ S.mod[m].h > 1)
+              /\ S' = [S EXCEPT !.mod[m] = IF @.h = 1 THEN Mod0 ELSE [@ EXCEPT !.h = @ - 1], !.ret = 0]
 
 (* ------------------------------ pub/sub ------------------------------ *)
 PubRefused(m) == ModRefused(m) \/ "DENYPUB" \in S.mod[m].fl
@@ -444,10 +462,10 @@ Pill(m, r) ==
        ELSE Rated(m, Ret(Deliver(S, <<r>>, Msg(0, m, "PILL", TRUE)), 0))
 
 \* a repeated subscription is updated in place (one subscription per pattern)
-Subscribe(m, q, pr) ==
-    /\ Can("Subscribe") /\ m \in Targets /\ Handle(m) /\ q \in Pats /\ pr \in Prios
+Subscribe(m, q, pr, os) ==
+    /\ Can("Subscribe") /\ m \in Targets /\ Handle(m) /\ q \in Pats /\ pr \in Prios /\ os \in SubOneshot
     /\ IF SubRefused(m) THEN Refuse(NEG)
-       ELSE Rated(m, [S EXCEPT !.mod[m].subs = {x \in @ : x.pat # q} \cup {[pat |-> q, pr |-> pr]}, !.ret = 0])
+       ELSE Rated(m, [S EXCEPT !.mod[m].subs = {x \in @ : x.pat # q} \cup {[pat |-> q, pr |-> pr, os |-> os]}, !.ret = 0])
 
 Unsubscribe(m, q) ==
     /\ Can("Unsubscribe") /\ m \in Targets /\ Handle(m) /\ q \in Pats
@@ -497,6 +515,7 @@ SrcRegister(m, k, key, o) ==
     /\ Can("SrcRegister") /\ Handle(m) /\ m \in Targets /\ k \in Kinds /\ key \in Keys /\ o \in SrcOpts
     /\ (k = "fd" => S.ufd[key] = "open") /\ (k # "fd" => ~o.ac)
     /\ (k = "fd" => \A x \in Mods \ {m} : ~HasSrc(S, x, "fd", key))       \* (precondition: one owner per user descriptor)
+    /\ (k = "fd" => ~Holds(S, key))                                       \* (modelling bound: no event of an earlier registration of it is still referenced)
     /\ IF ModRefused(m) THEN Refuse(NEG)
        ELSE IF HasSrc(S, m, k, key) THEN Rated(m, Ret(S, EEXIST))                 \* (the token is taken before the lookup)
        ELSE Rated(m, [S EXCEPT !.mod[m].src = @ \cup {[k |-> k, key |-> key, os |-> (o.os \/ k \in {"task", "thr"}), ac |-> o.ac]}, !.ret = 0])
@@ -512,10 +531,12 @@ SrcDeregister(m, k, key) ==
 \* environment: a user descriptor becomes readable / is drained / a closed one is replaced by a fresh one; a timer expires
 FdReady(f) == /\ Can("FdReady") /\ AtTop /\ f \in Keys /\ S.ufd[f] = "open" /\ f \notin S.rdy
               /\ S' = [S EXCEPT !.rdy = @ \cup {f}]
-FdDrain(f) == /\ Can("FdDrain") /\ f \in S.rdy
+FdHup(f) == /\ Can("FdHup") /\ AtTop /\ f \in Keys /\ S.ufd[f] = "open" /\ f \notin S.hup
+            /\ S' = [S EXCEPT !.rdy = @ \cup {f}, !.hup = @ \cup {f}]
+FdDrain(f) == /\ Can("FdDrain") /\ f \in S.rdy /\ f \notin S.hup
               /\ S' = [S EXCEPT !.rdy = @ \ {f}]
 FdReopen(f) == /\ Can("FdReopen") /\ AtTop /\ f \in Keys /\ S.ufd[f] = "closed"
-               /\ S' = [S EXCEPT !.ufd[f] = "open"]
+               /\ S' = [S EXCEPT !.ufd[f] = "open", !.hup = @ \ {f}]
 TmrFire(m, key) == /\ Can("TmrFire") /\ AtTop /\ key \in Keys /\ S.mod[m].st = "running" /\ HasSrc(S, m, "tmr", key) /\ <<m, key>> \notin S.due
                    /\ S' = [S EXCEPT !.due = @ \cup {<<m, key>>}]
 \* m_mod_set_tokenbucket(): the old refill timer goes (a rate-limited call under the old bucket), the new bucket starts full,
@@ -551,6 +572,26 @@ TickFire == /\ Can("TickFire") /\ AtTop /\ S.ctx.st = "looping" /\ S.ctx.tick # 
 SetErrno(v) == /\ Can("SetErrno") /\ v \in Errnos /\ S.errno # v
                /\ S' = [S EXCEPT !.errno = v]
 
+(* ------------------------------ other threads (C14) ------------------------------ *)
+\* a module operation attempted from another thread (own = that thread has a context of its own or none): permission error,
+\* no effect whatsoever
+ForeignCall(op, m, own) ==
+    /\ Can("ForeignCall") /\ AtTop /\ Handle(m) /\ op \in ForeignOps /\ own \in BOOLEAN
+    /\ S' = [S EXCEPT !.ret = EPERMC]
+\* a message cannot be addressed to a module of another (live) context
+ForeignTell(m) ==
+    /\ Can("ForeignTell") /\ AtTop /\ Handle(m)
+    /\ S' = [S EXCEPT !.ret = IF S.mod[m].st = "zombie" \/ NoCtx THEN EPERMC ELSE NEG]
+
+(* ------------------------------ events retained by the program ------------------------------ *)
+\* inside a handler: m_mem_ref() on the i-th event of this invocation; it stays valid until released
+RetainEvt(i) == /\ Can("RetainEvt") /\ InCb /\ Top(S).a = "evt" /\ i \in 1..Len(Top(S).ev) /\ Len(S.held) < MaxHeld
+                /\ LET e == Top(S).ev[i] IN
+                   S' = [S EXCEPT !.held = Append(@, e), !.pay = IF e.p = 0 THEN @ ELSE [@ EXCEPT ![e.p].copies = @ + 1], !.ret = 0]
+ReleaseEvt(j) == /\ Can("ReleaseEvt") /\ j \in 1..Len(S.held)
+                 /\ LET e == S.held[j] IN
+                    Do([S EXCEPT !.held = SubSeq(@, 1, j - 1) \o SubSeq(@, j + 1, Len(@)), !.pay = Release1(@, e.p), !.ret = 0])
+
 (* ------------------------------ leaving a callback ------------------------------ *)
 \* v: the callback's answer (on_eval / on_start: BOOLEAN; others: TRUE)
 CbReturn(v) ==
@@ -562,6 +603,8 @@ CbReturn(v) ==
 Next == \/ CtxRegister \/ CtxDeregister \/ CtxFinalize
         \/ \E c \in QuitCodes : CtxQuit(c)
         \/ \E b \in AllBatches : Dispatch(b)
+        \/ \E m \in Mods : RefMod(m) \/ ForeignTell(m) \/ \E op \in ForeignOps, own \in BOOLEAN : ForeignCall(op, m, own)
+        \/ \E i \in 1..3 : RetainEvt(i) \/ ReleaseEvt(i)
         \/ \E m \in Mods : \/ (\E i \in 1..2 : ModRegister(m, i)) \/ ModDeregister(m) \/ ModStart(m) \/ ModResume(m) \/ ModPause(m) \/ ModStop(m)
                            \/ DropRef(m) \/ PublishSys(m)
                            \/ \E r \in Mods : Pill(m, r)
@@ -569,14 +612,14 @@ Next == \/ CtxRegister \/ CtxDeregister \/ CtxFinalize
                                  \/ Broadcast(m, p, auto)
                                  \/ \E r \in Mods : Tell(m, r, p, auto)
                                  \/ \E t \in Topics : Publish(m, t, p, auto)
-                           \/ \E q \in Pats : Unsubscribe(m, q) \/ \E pr \in Prios : Subscribe(m, q, pr)
+                           \/ \E q \in Pats : Unsubscribe(m, q) \/ \E pr \in Prios, os \in SubOneshot : Subscribe(m, q, pr, os)
                            \/ \E n \in BatchSizes : SetBatchSize(m, n)
                            \/ \E i \in 1..3 : Stash(m, i)
                            \/ \E n \in UnstashNs : Unstash(m, n)
                            \/ \E h \in HandlerIds : Become(m, h)
                            \/ Unbecome(m)
         \/ \E m \in Mods, k \in Kinds, key \in Keys : SrcDeregister(m, k, key) \/ \E o \in SrcOpts : SrcRegister(m, k, key, o)
-        \/ \E f \in Keys : FdReady(f) \/ FdDrain(f) \/ FdReopen(f) \/ \E m \in Mods : TmrFire(m, f)
+        \/ \E f \in Keys : FdReady(f) \/ FdDrain(f) \/ FdReopen(f) \/ FdHup(f) \/ \E m \in Mods : TmrFire(m, f)
         \/ \E v \in Errnos : SetErrno(v)
         \/ \E m \in Mods : TbTick(m) \/ BtFire(m) \/ (\E v \in TbVals : SetTokenBucket(m, v)) \/ (\E on \in BOOLEAN : SetBatchTimeout(m, on))
         \/ TickFire \/ \E v \in TickVals : CtxSetTick(v)
@@ -608,6 +651,7 @@ SumF(f, D) == IF D = {} THEN 0 ELSE LET x == CHOOSE x \in D : TRUE IN f[x] + Sum
 C02_CopyAccounting == \A p \in 1..MaxPay :
      S.pay[p].copies = SumF([m \in Mods |-> CountIn(S.mod[m].pipe, p) + CountIn(S.mod[m].bq, p) + CountIn(S.mod[m].stash, p)], Mods)
                        + SumF([i \in 1..Len(S.stack) |-> IF S.stack[i].k = "evt2" THEN CountIn(S.stack[i].ev, p) ELSE 0], 1..Len(S.stack))
+                       + CountIn(S.held, p)
 \* mailboxes exist only for RUNNING / PAUSED modules (stop and deregistration discard)
 C02_NoMailUnlessActive == \A m \in Mods : S.mod[m].pipe # <<>> => Active(S, m)
 \* C13/C16/C17: batch queue, stash and handler stack exist only between start and stop
@@ -624,6 +668,9 @@ C13_HeldBackForAReason == Quiescent => \A m \in Mods :
 C09_KeyedSet == \A m \in Mods : \A x, y \in S.mod[m].src : (x.k = y.k /\ x.key = y.key) => x = y
 \* C09/C20: sources exist only up to the stop of their module
 C09_DroppedOnStop == \A m \in Mods : S.mod[m].st \in {"zombie", "none"} => S.mod[m].src = {}
+\* C04: a module object exists exactly while it is registered or referenced by the program (or still running a call)
+C04_ObjectLifetime == \A m \in Mods : /\ (S.mod[m].st = "none" => (~S.mod[m].reg /\ S.mod[m].h = 0))
+                                        /\ (S.mod[m].st = "zombie" => (~S.mod[m].reg /\ S.mod[m].h > 0))
 \* C20: a descriptor is closed by the library only through auto-close; one that is registered is open
 C20_RegisteredOpen == \A m \in Mods : \A x \in S.mod[m].src : x.k = "fd" => S.ufd[x.key] = "open"
 \* C18: never more tokens than the burst; no limit when the module is not between start and stop unless configured meanwhile
